@@ -112,6 +112,8 @@ class CallMixin:
             if attr in DICT_METHODS:
                 return self.st.register(BoundMethod(BuiltinFn("dict." + attr), obj))
             return self._attr_error(node, default)
+        if nm == "OrderedDict" and attr in ("keys", "values"):
+            return self.st.register(BoundMethod(BuiltinFn("dict." + attr), obj))
         ci = self.table.info.get(cid)
         if ci is not None:
             from .contract import CLASS_INVARIANTS
